@@ -226,7 +226,9 @@ def run_impl(ctx, cases, tag, procs=6):
         fin = os.path.join(C.BUILD, "%s_api_in_%d.json" % (tag, k))
         fout = os.path.join(C.BUILD, "%s_api_out_%d.json" % (tag, k))
         with open(fin, "w") as f:
-            json.dump({"cases": [{"reqs": [wire(r) for r in cases[i]["reqs"]]} for i in parts[k]]}, f)
+            json.dump({"cases": [{"reqs": [wire(r) for r in cases[i]["reqs"]],
+                                  "probes": [] if cases[i].get("noprobe") else [a for a, port in (cases[i].get("env") or []) if port is not None]}
+                                 for i in parts[k]]}, f)
         if os.path.exists(fout):
             os.remove(fout)
         rc, out = C.sh([h, "-mode", "api", "-in", fin, "-out", fout], env=C.GOENV, timeout=900)
